@@ -628,6 +628,10 @@ def _load_baseline_locals():
         return json.load(fh)
 
 
+_RELEASING_CALLEES = {'_dbus_list_remove_link', '_dbus_list_free_link', 'free_link', 'dbus_free', '_dbus_mem_pool_dealloc',
+                      '_dbus_list_unlink'}
+
+
 def _propagate_new_locals(f, known):
     """Locals that do not exist in the reference tree's version of this function and are defined exactly
     once from an expression whose operands do not change afterwards are aliases / hoisted subexpressions:
@@ -728,6 +732,11 @@ def _propagate_new_locals(f, known):
                 for a in ev['e']['args']:
                     if a.get('k') == 'un' and a.get('op') == '&' and isinstance(a.get('e'), dict) and \
                             a['e'].get('k') == 'ref' and a['e'].get('id') in op_ids:
+                        return True
+                    if a.get('k') == 'ref' and a.get('id') in ptr_bases and \
+                            ev['e'].get('callee') in _RELEASING_CALLEES:
+                        # the object the value was read from is given away: what was read before stays what it
+                        # was, the expression does not
                         return True
                     if a.get('k') == 'ref' and a.get('id') in ptr_bases and not is_ptr_local:
                         # a scalar snapshot (a saved position, a length) goes stale when a callee is given
